@@ -2,8 +2,9 @@ from kernels import K
 
 # ---------------------------------------------------------------- C06
 K('C06.e', engine='symex', harness='C06/sort.cpp', entry='k_sort', tus=['src/Tree/neighbors_heap.cpp'],
-  defines={'quick': {'VF_N': 6}, 'thorough': {'VF_N': 8}},
-  bounds={'quick': 'size 0..6, arbitrary distinct-or-equal finite distances', 'thorough': 'size 0..8'},
+  defines={'quick': {'VF_N': 6}, 'thorough': {'VF_N': 7}},   # size 8: z3 returns unknown on the permutation obligations within 10 min per query
+  bounds={'quick': 'size 0..6, arbitrary distinct-or-equal finite distances', 'thorough': 'size 0..7'},
+  timeout_ms={'quick': 120000, 'thorough': 900000},
   validate={'quick': 30, 'thorough': 60},
   what='simultaneous_sort/dual_swap (neighbors_heap.cpp): output ascending, (dist,idx) pairs stay a permutation; full recursion executed',
   out='NaN distances; sizes above the bound',
@@ -73,9 +74,9 @@ K('C06.g', property='C06', engine='symex', harness='C06/sector.cpp', entry='k_se
 # bit-precise twin of C06.g (suspect S8: 2*pi - atan(tiny) rounds to 2*pi in IEEE arithmetic)
 K('C06.g.ieee', property='C06', engine='cbmc', harness='C06/sector.cpp', entry='k_sector_define',
   tus=['src/Neigh/NeighMoving.cpp'], cstubs='C06/atan_stub.c', cxxflags=['-fno-inline'],
-  defines={'quick': {'VF_NSECT_LO': 2, 'VF_NSECT_HI': 3}, 'thorough': {'VF_NSECT_LO': 2, 'VF_NSECT_HI': 16}},
-  unwind={'quick': 3, 'thorough': 16}, timeout_s={'quick': 600, 'thorough': 3600},
-  bounds={'quick': 'every finite IEEE double pair (dx,dy) != (0,0); nsect = 2..3', 'thorough': 'nsect = 2..16'},
+  defines={'quick': {'VF_NSECT_LO': 2, 'VF_NSECT_HI': 3}, 'thorough': {'VF_NSECT_LO': 2, 'VF_NSECT_HI': 4}},   # nsect up to 16: cbmc gives no verdict in 1 h
+  unwind={'quick': 3, 'thorough': 4}, timeout_s={'quick': 600, 'thorough': 3600},
+  bounds={'quick': 'every finite IEEE double pair (dx,dy) != (0,0); nsect = 2..3', 'thorough': 'nsect = 2..4'},
   validate={'quick': 40, 'thorough': 60},
   what='NeighMoving::_movingSectorDefine, IEEE-754 double semantics: result in [0, nsect)',
   out='libm accuracy beyond the stated model of atan',
